@@ -1,14 +1,34 @@
-"""In-memory positive fixtures for rules whose expected count on a healthy tree is zero
-(DESIGN.md section 7): each must match on every run so the matcher cannot rot."""
-FIXTURES = []
+"""Positive fixtures for rules whose expected count on a healthy tree is zero (DESIGN.md
+section 7): for each such rule one in-memory variant of /repo's *current* source that must
+make the rule fire.  Run by `python -m vstatic selfcheck` (MANIFEST.setup_cmd) so that a
+matcher that has silently rotted is noticed before any verdict is believed.  A fixture
+whose anchor text is gone from the tree is skipped (the self-test of the thorough tier
+reports that)."""
+from . import mutants
 
-
-def fixture(fn):
-    FIXTURES.append(fn)
-    return fn
+# (property, variant id) pairs taken from the catalogues
+FIXTURES = [
+    ("C05", "C05-B-foreign-store-writer"),     # K5: nobody outside the databases mutates the stores
+    ("C15", "C15-B-pop-storage"),              # T3: storage is append-only
+    ("C16", "C16-B-ignore-discard"),           # Q2: the ignore set only grows
+    ("C17", "C17-B-lambda-attr-queue"),        # R1: no unpicklable attribute
+    ("C17", "C17-B-time-in-add-rule"),         # R3: no clock-dependent branch under a packet
+    ("C18", "C18-B-F5-regress"),               # J4: no generic-alias instantiation
+    ("C18", "C18-B-strategy-memo-dict"),       # J4: nothing writes __dict__ outside __init__
+    ("C04", "C04-B-new-recording-site"),       # A3: no unsanctioned recording site
+    ("C14", "C14-B-forget-overrides-contains"),  # W3: shared logic not overridden
+]
 
 
 def run_all() -> int:
-    for fn in FIXTURES:
-        fn()
-    return len(FIXTURES)
+    n = 0
+    for pid, vid in FIXTURES:
+        cat = {v["id"]: v for v in mutants.catalogue(pid)}
+        if vid not in cat:
+            raise RuntimeError(f"fixture {vid} missing from the catalogue of {pid}")
+        vid_, status, msg = mutants._run_one((pid, cat[vid]))
+        if status == "fail":
+            raise RuntimeError(f"fixture {vid}: {msg}")
+        if status == "ok":
+            n += 1
+    return n
